@@ -110,7 +110,33 @@ class Case:
             else: out.append(l)
         return out
 
-def _run_shard(binary, cases, env, timeout, announce):
+def _run_watched(binary, inp, env, wd, timeout, stall):
+    """Like subprocess.run, but the process is killed as soon as it has printed nothing for `stall` seconds
+    (every request announces itself, so silence means one request is stuck): a hang costs seconds, not `timeout`."""
+    import threading, time as _t
+    p = subprocess.Popen([binary], stdin=subprocess.PIPE, stdout=subprocess.PIPE, stderr=subprocess.DEVNULL, env=env, cwd=wd)
+    chunks = []; last = [_t.time()]
+    def feed():
+        try:
+            p.stdin.write(inp); p.stdin.close()
+        except Exception: pass
+    def drain():
+        while True:
+            b = p.stdout.read1(65536) if hasattr(p.stdout, 'read1') else p.stdout.read(65536)
+            if not b: break
+            chunks.append(b); last[0] = _t.time()
+    tf = threading.Thread(target=feed, daemon=True); td = threading.Thread(target=drain, daemon=True)
+    tf.start(); td.start()
+    t0 = _t.time(); hung = False
+    while p.poll() is None:
+        _t.sleep(0.2)
+        now = _t.time()
+        if now - last[0] > stall or now - t0 > timeout:
+            hung = True; p.kill(); break
+    p.wait(); td.join(timeout=5)
+    return (-999 if hung else p.returncode), b''.join(chunks).decode('utf-8', 'replace'), hung
+
+def _run_shard(binary, cases, env, timeout, announce, stall=None):
     """Run one process over a list of cases; survive aborts by restarting after the aborted case.
     Returns dict cid -> list of output lines (a synthetic line marks abort/hang)."""
     res = {}
@@ -124,10 +150,13 @@ def _run_shard(binary, cases, env, timeout, announce):
         e['TL_WORKDIR'] = wd
         inp = ''.join(c.text() for c in cases[i:]).encode()
         try:
-            p = subprocess.run([binary], input=inp, stdout=subprocess.PIPE, stderr=subprocess.PIPE,
-                               env=e, timeout=timeout, cwd=wd)
-            rc, out = p.returncode, p.stdout.decode('utf-8', 'replace')
-            hung = False
+            if stall:
+                rc, out, hung = _run_watched(binary, inp, e, wd, timeout, stall)
+            else:
+                p = subprocess.run([binary], input=inp, stdout=subprocess.PIPE, stderr=subprocess.PIPE,
+                                   env=e, timeout=timeout, cwd=wd)
+                rc, out = p.returncode, p.stdout.decode('utf-8', 'replace')
+                hung = False
         except subprocess.TimeoutExpired as ex:
             rc, out, hung = -999, (ex.stdout or b'').decode('utf-8', 'replace'), True
         finally:
@@ -162,7 +191,7 @@ def _run_shard(binary, cases, env, timeout, announce):
         i = j + 1
     return res
 
-def run_side(binary, cases, env=None, timeout=600, announce=False, nproc=None):
+def run_side(binary, cases, env=None, timeout=600, announce=False, nproc=None, stall=None):
     from concurrent.futures import ThreadPoolExecutor
     os.makedirs(os.path.join(BUILD, 'tmp'), exist_ok=True)
     nproc = nproc or NPROC
@@ -170,7 +199,7 @@ def run_side(binary, cases, env=None, timeout=600, announce=False, nproc=None):
     shards = [cases[k::n] for k in range(n)]
     out = {}
     with ThreadPoolExecutor(max_workers=n) as ex:
-        for r in ex.map(lambda sh_: _run_shard(binary, sh_, env, timeout, announce), shards):
+        for r in ex.map(lambda sh_: _run_shard(binary, sh_, env, timeout, announce, stall if announce else None), shards):
             out.update(r)
     return out
 
